@@ -59,6 +59,13 @@ type SigSpec struct {
 	SigForm string   `json:"sigform,omitempty"` // "" | empty | junk | trunc | zero | long
 	Unprot  []string `json:"unprot,omitempty"`  // unprotected header (JSON serialisations): kid-victim | kid-attacker | alg-none | alg-natural | jwk-attacker | jwk-signer | jku
 	Prot    string   `json:"prot,omitempty"`    // JSON serialisations: "" | omit | rawjson
+	// Metadata of the verification key as a JWK: of the embedded `jwk`, or (adapters with DID documents) of the JsonWebKey2020
+	// verification method / did:jwk the key id resolves to. The key travels in attacker-controlled data, so do these.
+	JWKAlg string `json:"jwk_alg,omitempty"` // "" = world default | omit | header (= the header's alg) | any alg name (ES512, RS256, none, HS256, ...)
+	JWKUse string `json:"jwk_use,omitempty"` // "" | sig | enc
+	JWKOps string `json:"jwk_ops,omitempty"` // "" | verify | sign | encrypt
+	JWKKid string `json:"jwk_kid,omitempty"` // "" = world default | same (as the protected kid / the role's key id) | other | omit
+	SignAs string `json:"sign_as,omitempty"` // "" = the header's alg | jwk-alg: sign the way a verifier that trusts the JWK's alg instead of the header's would accept
 }
 
 // Mut alters bytes after signing.
@@ -108,7 +115,11 @@ type SigFacts struct {
 	SignedFits bool     `json:"signed_fits,omitempty"` // ... which is defined for that key type
 	Inject     []string `json:"inject,omitempty"`
 	Unprot     []string `json:"unprot,omitempty"`
-	Prot       string   `json:"prot,omitempty"`
+	// metadata the verification key's JWK carries (alg / use / key_ops / kid; absent members are absent here too)
+	JWKExtra  map[string]string `json:"jwk_extra,omitempty"`
+	JWKAlgRel string            `json:"jwk_alg_rel,omitempty"` // absent | same | differs (JWK alg vs header alg)
+	SignedAs  string            `json:"signed_as,omitempty"`   // jwk-alg: the signature only verifies under the JWK's alg, not the header's
+	Prot      string            `json:"prot,omitempty"`
 }
 
 // Facts describe the built token.
@@ -289,23 +300,26 @@ func Build(w World, v Variant) Built {
 			b.f.JWK = "oct"
 		} else if i := strings.LastIndex(jwkSel, "-"); i > 0 && isRole(jwkSel[:i]) {
 			role, priv := jwkSel[:i], jwkSel[i+1:] == "priv"
-			var extra []Member
-			if w.JWKAlg {
-				extra = append(extra, Str("alg", w.nat(keys[role])))
-			}
-			if w.JWKKid {
-				k := w.Kids[role]
-				if k == "" {
-					k = w.Kids["unknown"]
-				}
-				extra = append(extra, Str("kid", k))
-			}
+			extra, meta := jwkMeta(w, s, role, keys[role], alg, protKid, true)
+			b.f.JWKExtra = meta
 			b.hdr = append(b.hdr, Member{"jwk", keys[role].JWK(priv, extra...).JSON()})
 			if priv {
 				b.f.JWK = role + "-priv"
 			} else {
 				b.f.JWK = role + "-pub"
 			}
+		}
+		if b.f.JWKExtra == nil && (s.JWKAlg != "" || s.JWKUse != "" || s.JWKOps != "" || s.JWKKid != "") {
+			// no embedded key: the metadata is for the JWK the key id resolves to (the adapter puts it into the DID document)
+			_, b.f.JWKExtra = jwkMeta(w, s, claimRole, keys[claimRole], alg, protKid, false)
+		}
+		switch jwkAlg, has := b.f.JWKExtra["alg"]; {
+		case !has:
+			b.f.JWKAlgRel = "absent"
+		case alg != "-" && jwkAlg == alg:
+			b.f.JWKAlgRel = "same"
+		default:
+			b.f.JWKAlgRel = "differs"
 		}
 		// the valid token's other members
 		b.hdr = append(b.hdr, w.Header...)
@@ -370,6 +384,8 @@ func Build(w World, v Variant) Built {
 			if b.f.Prot == "omit" {
 				// nothing protected names an algorithm: keep the facts simple, this entry carries no valid signature
 				b.sig = junkBytes(input, sigSize(signerKey))
+			} else if jwkAlg := b.f.JWKExtra["alg"]; s.SignAs == "jwk-alg" && b.f.JWKAlgRel == "differs" && signAsJWKAlg(&b, signerKey, s.Signer, jwkAlg, input) {
+				// signed under the JWK's algorithm: a verifier that honours the header's cannot validate it
 			} else if sg, err := SignRaw(signerKey, alg, input); err == nil {
 				b.sig = sg
 				b.f.ValidFor = s.Signer
@@ -561,7 +577,80 @@ func Build(w World, v Variant) Built {
 }
 
 func isBaseSpec(s SigSpec) bool {
-	return s.Signer == Victim && s.Alg == "" && s.Kid == "" && s.JWK == "" && len(s.Inject) == 0 && s.SigForm == "" && s.Prot == ""
+	return s.Signer == Victim && s.Alg == "" && s.Kid == "" && s.JWK == "" && len(s.Inject) == 0 && s.SigForm == "" && s.Prot == "" &&
+		s.JWKAlg == "" && s.JWKUse == "" && s.JWKOps == "" && s.JWKKid == "" && s.SignAs == ""
+}
+
+// jwkMeta resolves the metadata members of the verification key's JWK. embedded: the JWK is the token's own `jwk` header
+// (world defaults apply); otherwise it is the JWK a key id resolves to, which carries nothing by default.
+func jwkMeta(w World, s SigSpec, role string, k Key, headerAlg, protKid string, embedded bool) ([]Member, map[string]string) {
+	var extra []Member
+	meta := map[string]string{}
+	add := func(name, v string) {
+		extra = append(extra, Str(name, v))
+		meta[name] = v
+	}
+	switch s.JWKAlg {
+	case "":
+		if embedded && w.JWKAlg {
+			add("alg", w.nat(k))
+		}
+	case "omit":
+	case "header":
+		if headerAlg != "-" {
+			add("alg", headerAlg)
+		}
+	default:
+		add("alg", s.JWKAlg)
+	}
+	if s.JWKUse != "" {
+		add("use", s.JWKUse)
+	}
+	if s.JWKOps != "" {
+		extra = append(extra, RawM("key_ops", `["`+s.JWKOps+`"]`))
+		meta["key_ops"] = s.JWKOps
+	}
+	own := w.Kids[role]
+	if own == "" {
+		own = w.Kids["unknown"]
+	}
+	switch s.JWKKid {
+	case "":
+		if embedded && w.JWKKid {
+			add("kid", own)
+		}
+	case "omit":
+	case "same":
+		if protKid != "" {
+			add("kid", protKid)
+		} else {
+			add("kid", own)
+		}
+	default:
+		add("kid", w.Kids["unknown"]+"-other")
+	}
+	return extra, meta
+}
+
+// signAsJWKAlg puts the signature a verifier would accept that takes the algorithm from the key's JWK. Returns false when
+// there is no such signature to make (then the caller signs under the header's algorithm as usual).
+func signAsJWKAlg(b *builtSig, k Key, role, jwkAlg string, input []byte) bool {
+	switch {
+	case Family(jwkAlg) == "HMAC":
+		// the "secret" is the public key itself
+		b.sig = MAC(jwkAlg, k.XY(), input)
+	case strings.EqualFold(jwkAlg, "none"):
+		b.sig = nil
+	default:
+		sg, err := SignRaw(k, jwkAlg, input)
+		if err != nil {
+			return false
+		}
+		b.sig = sg
+		b.f.SignedBy, b.f.SignedWith = role, jwkAlg
+	}
+	b.f.SignedAs = "jwk-alg"
+	return true
 }
 
 func sigObject(b builtSig) string {
@@ -820,6 +909,8 @@ func truth(w World, f Facts) Verdict {
 		r := "bad-signature"
 		if s.Altered != "" {
 			r = "altered-" + s.Altered
+		} else if s.SignedAs == "jwk-alg" {
+			r = "verified-under-jwk-alg-not-header-alg"
 		}
 		return Verdict{MustReject: true, Reason: r}
 	}
@@ -928,6 +1019,35 @@ func Judge(consumer string, w World, v Variant, b Built, o Observation) (fs []Fi
 	classes = []string{"t:" + v.T, "truth:" + truth + ":" + outcome, "reason:" + vd.Reason, "ser:" + b.F.Ser, "vkey:" + v.VKey, "ref:" + b.F.Ref}
 	if !vd.MustReject && !vd.MustAccept {
 		classes = append(classes, "may-accept:"+v.T+":"+outcome)
+	}
+	if len(b.F.Sigs) == 1 {
+		if s := b.F.Sigs[0]; len(s.JWKExtra) > 0 || s.SignedAs != "" {
+			signed := "header-alg"
+			if s.SignedAs != "" {
+				signed = s.SignedAs
+			}
+			rel := s.JWKAlgRel
+			if rel == "differs" {
+				if contains(w.Allowed, s.JWKExtra["alg"]) {
+					rel += "-allowed"
+				} else {
+					rel += "-not-allowed"
+				}
+			}
+			classes = append(classes, "jwkmeta:alg-"+rel+":signed-"+signed+":"+truth+":"+outcome)
+			for _, m := range []string{"use", "key_ops"} {
+				if val, ok := s.JWKExtra[m]; ok {
+					classes = append(classes, "jwkmeta:"+m+"-"+val+":"+truth+":"+outcome)
+				}
+			}
+			if kid, ok := s.JWKExtra["kid"]; ok {
+				krel := "differs"
+				if contains(b.F.ProtKids, kid) || kid == w.Kids[Victim] || kid == w.Kids[Attacker] {
+					krel = "same"
+				}
+				classes = append(classes, "jwkmeta:kid-"+krel+":"+truth+":"+outcome)
+			}
+		}
 	}
 	if vd.Reason == "non-canonical-serialisation" {
 		if b.F.Ser != "compact" {
